@@ -71,6 +71,7 @@ class SimCtl:
         self.exchanges = 0  # requests answered so far (bump hooks count these)
         self.hooks: list[tuple[int, Any]] = []  # (after n-th exchange, fn)
         self.replies_on = True
+        self.counter_reads: list[float] = []  # when a change-counter query was answered
         for z in zones:
             self.set(z, gen_schedule(rng, "zone", z))
         air.add_listener(self.heard)
@@ -96,6 +97,7 @@ class SimCtl:
         reply = None
         if re.match(r"RQ ... 18:\d{6} 01:145038 --:------ 0006 001 00", frame):
             reply = f"RP --- {CTL} {GWY_ID} --:------ 0006 004 0005{self.counter:04X}"
+            self.counter_reads.append(self.loop.time())
         elif m := re.match(r"RQ ... 18:\d{6} 01:145038 --:------ 0404 007 (..)200008..(..)(..)", frame):
             idx, num = m.group(1), int(m.group(2), 16)
             frags = self.frags.get(idx)
@@ -272,6 +274,30 @@ async def episode(loop: vloop.VirtualLoop, ctx, trial: int) -> None:
             loop.call_later(rng.choice((0.01, 0.05, 0.2, 0.6, 2.0)), overhear)
         meta["overheard"] = f"replies to another requester for zone {z}"
 
+    if trial % 5 == 4 and len(zones) >= 2:
+        # directed family: our fetch for zone A queues behind a (slowed) transfer for zone B; meanwhile another
+        # requester fetches all of A's schedule (overheard in full); then A's schedule is edited; then our fetch runs
+        a, b = zones[0], zones[1]
+        ops = [(b, rng.choice(("set", "get-force")), None), (a, rng.choice(("get", "get-force")), None)]
+        meta["ops"] = [f"{op} zone {z}" for z, op, _ in ops]
+        faults.rules.clear()
+        faults.add("to_gwy", rf" 0404 \d{{3}} {b}200008", "delay", times=rng.choice((1, 2)), arg=rng.choice((0.3, 0.45)))
+        meta["faults"] = ["slow replies for zone " + b]
+        frs_a = list(sim.frags[a])
+        t_over = rng.choice((0.05, 0.1, 0.2))
+        for k, fr in enumerate(frs_a):
+            loop.call_later(t_over + 0.03 * k, air.inject, rp_0404(a, k + 1, len(frs_a), fr).replace(GWY_ID, "18:111111"), 0.0, "045", False)
+        big = rng.random() < 0.7
+
+        def edit(a=a, big=big) -> None:
+            sim.set(a, gen_schedule(rng, "zone", a, stress=big))
+            ctx.count("bumps")
+
+        loop.call_later(t_over + 0.03 * len(frs_a) + rng.choice((0.01, 0.05)), edit)
+        meta["overheard"] = f"the whole schedule of zone {a} ({len(frs_a)} fragments) while our fetch is queued, then zone {a} is edited" + (" (more fragments)" if big else "")
+        meta.pop("bump", None)
+        sim.hooks.clear()
+        ctx.count("directed.overheard_full_set_while_queued")
     faults.on = True
 
     async def call(z: str, op: str, outer: float | None) -> None:
@@ -332,6 +358,12 @@ async def episode(loop: vloop.VirtualLoop, ctx, trial: int) -> None:
             continue
         lookback = 0.0 if rec["op"] == "get-force" else 180.0
         ok = sim.versions_during(z, rec["call_vt"] - lookback, rec["return_vt"])
+        # 'as of a change counter read during the transfer': once the counter has been read in this call, only what
+        # the controller held from that moment on can be the answer (an older version overheard before it cannot)
+        reads = [t for t in sim.counter_reads if rec["call_vt"] <= t <= rec["return_vt"]]
+        if reads:
+            ctx.count("calls.judged_from_counter_read")
+            ok = sim.versions_during(z, min(reads), rec["return_vt"])
         if rec["result"] is None:
             ctx.count("calls.returned_none")
             continue
